@@ -60,7 +60,8 @@ def run_sym(
                 rep = None
                 if replay is not None:
                     try:
-                        rep = replay(None, f"raised {type(res).__name__}")
+                        with npproxy.native():
+                            rep = replay(None, f"raised {type(res).__name__}")
                     except Exception:
                         rep = None
                 if rep is not None:
@@ -114,7 +115,8 @@ def run_sym(
                 if replay:
                     # prefer counterexamples with small integer inputs: they replay exactly in float64
                     for m in _nice_models(claim, pc, model):
-                        rep = replay(m, label)
+                        with npproxy.native():
+                            rep = replay(m, label)
                         if rep is not None:
                             break
                 if rep is None:
